@@ -153,7 +153,14 @@ Print Assumptions spinchain_reproduces_circuit.
    (Proofs/TranspileC06.v): gs is any C06 gate list carrying the names and targets of `transpile d N src` (the model of
    ModelProcessor.transpile with the decompose-before-routing repair).  What is STILL hypothesised: the composition
    principle, and c13_transpile_sem (C13's transpile_sem gives the semantic equality only up to a re-parameterisation of
-   the angles per transpiled gate; that bridge is not formalised). *)
+   the angles per transpiled gate; that bridge is not formalised).
+   Precisely: C13 denotes transpiled gate o as  gden R (env (gsrc o)) (msubst (gargs o) M_o, qubits o)  -- the atoms of its
+   SOURCE gate and argument expressions over the source parameters (the source argument copied, constants k*pi/4, theta/2
+   for the GLOBALPHASE of a PHASEGATE) -- while full_icirc/pulse_icirc here denote gate i as  gden R (env i) (M_i, targets)
+   with its own Var 0.  Discharging c13_transpile_sem needs (a) pulses_are_gates restated over instances
+   (gsrc o, msubst [e] M) / (gsrc o, msubst [subst [e] ph] closed) with one scirc_eqb check per argument expression e that a
+   decomposition rule can emit for RX/RZ, and (b) a new invariant over C13's transpile model that every output argument is
+   one of those finitely many expressions and that the numeric g_arg of the C06 gate is its value; neither exists yet. *)
 Theorem spinchain_reproduces_transpiled :
   forall (R : PhaseRing) (env : nat -> atoms R)
          (propagator : cfg -> option (list Q) -> list ngate -> state R -> state R)
